@@ -23,8 +23,13 @@ Definition role_of_id (z : Z) : option role := find (fun r => role_id r =? z) al
 Definition cstate_of_id (z : Z) : option cstate :=
   find (fun s => cstate_id s =? z) [Inactive; PartialActive; Active; Paused].
 
+Definition all_other_auth : list other_auth := [OAlsoAuthorised; ORevoked; ONeverAuthorised].
+Definition all_variants : list variant :=
+  [VPlain; VOrigCaller; VForOther; VMultiOwn]
+  ++ flat_map (fun k => map (VForeignOwner k) all_other_auth) [0; 1; 2].
+
 Definition variant_of_id (z : Z) : option variant :=
-  find (fun v => variant_id v =? z) [VPlain; VOrigCaller; VForOther].
+  find (fun v => variant_id v =? z) all_variants.
 
 Definition outcome_of_id (z : Z) : option outcome :=
   find (fun o => outcome_id o =? z) [OOk; OPermErr; OStateErr; OOtherErr].
@@ -62,6 +67,7 @@ Definition guard_code (g : guard) : Z * Z :=
   match g with
   | GLifecycle => (0, 0) | GOnlyOwner => (1, 0) | GPerm m => (2, m) | GParty p => (3, party_id p)
   | GOwnerOrOpen => (4, 0) | GHub => (5, 0) | GNobody => (6, 0) | GQuery => (7, 0) | GAnyone => (8, 0)
+  | GHubOwned l => (9, if all_owned_by_user l then 0 else 1)      (* 1: some paid position has a foreign owner *)
   end.
 
 Definition sreq_code (s : sreq) : Z :=
